@@ -24,6 +24,14 @@ oracle demands that a windowed listing has the container of the un-windowed one;
 content (overlapping / missing every record: before, after, between, empty, inverted, far away / touching the first or last
 time), spelled with ints, integral floats, half-lowered floats, +-inf, numpy ints, Fractions; the option product in short
 on every object without records (at birth, after clear() / the removal of the last record).
+Extension round: the CONSTRUCTOR is one model line (`ctor ...` = `C03.construct`, Model/C03Ext.lean; before, the harness
+translated it into new + calls itself): accepted forms (embedded / separate times, weights on an unweighted object,
+hypergraph metadata incl. the reserved key, node metadata, the form without edge_list) and refused ones (time_list alone,
+an element that is not a (time, edge) pair, different lengths, a bad time, wrong number of weights / metadata entries,
+weights with a repeated hyperedge) - real must raise, model must answer rej; `expose_attributes_for_hashing()` (ORDERED
+rendering; three parties) is part of the digest, `expose_data_structures()` (every raw table, ids, next id) is compared with
+the model after every call, `get_edge_list()`, `get_adj_dict()`, `get_mapping()` (classes and the code of every label) in
+every sweep.
 """
 import copy as _copy
 import json
@@ -63,7 +71,13 @@ RULE = ("random histories (6-40 public mutating calls; 1-2 object slots for copy
         "(30%), the return TYPE of every query (container, record shape, int / bool) compared with the map and with the "
         "model's answer kind (`k` lines), a 60-query option burst on every object at birth and after every call that leaves it "
         "without records, snapshots with/without add_all_nodes, aggregate for 15 "
-        "widths and malformed widths, 20 questions repeated twice in a row. A history is distinct by its canonical op list; "
+        "widths and malformed widths, 20 questions repeated twice in a row. Extension round (own PRNG per history, the older "
+        "streams are unchanged): 0-2 constructor calls that must be refused (time_list alone / a non-pair element / different "
+        "lengths / bad time / wrong number of weights or metadata / weights with a repeated hyperedge) and in half of the "
+        "histories one more accepted constructor call into a scratch object (with or without edge_list); every constructor call "
+        "is ONE model line; the hashing view is in the digest, expose_data_structures() is compared after every call, "
+        "get_edge_list / get_adj_dict / get_mapping (classes, code of every label) in every sweep. "
+        "A history is distinct by its canonical op list; "
         "non-trivial = >=1 accepted removal and >=1 insertion of a record that is or was present.")
 ASSUMPTIONS = ["node labels are mutually comparable and used only through ==, hash, < (mapped to ranks for the model); they are "
                "not tuples: a 2-element hyperedge of two tuple labels is read as a directed pair by _canon_edge (known finding D50, "
@@ -93,8 +107,10 @@ TRUSTED = ["Hypergraph objects returned by aggregate()/subhypergraph() are read 
            "the spec-level Python oracle in harness/c03.py (class Spec) is hand-written from the property text",
            "container types, object identity and aliasing are outside the Lean model (value-based lists of ranks): they are "
            "checked by the harness only (same history, same expected content)",
-           "getters outside the model (matrices, get_mapping, expose_*, raw tables, str) are compared object against object "
-           "only (result of a route vs its source), through a type-tagged canonical form",
+           "getters outside the model (matrices, str) are compared object against object only (result of a route vs its "
+           "source), through a type-tagged canonical form; get_mapping is compared with the model where numpy represents the "
+           "labels exactly (ints below 2^62, floats, strings; absent string labels are not encoded: sklearn truncates them), "
+           "LabelEncoder itself is trusted",
            "the table of Python types per query / option in Impl._query0 (list / dict / set / int / bool, record = (int, tuple)) "
            "is read off the unchanged code; its link to the model is Ans.kind (k lines: list<->recs, dict<->recsMeta/recsW/counts/hs, "
            "int<->int, float<->inf)",
@@ -701,8 +717,20 @@ class Spec:
             mt = max(k[0] for k in R)
             return f_join(("%d>%s" % (i, self.hspec_of([k for k in R if i * w <= k[0] < (i + 1) * w], True))
                            for i in range(mt // w + 1)), "|")
-        if name in ("allemeta", "iter"):
+        if name in ("allemeta", "iter", "edgetable", "adjtable", "tables"):
             return None
+        if name == "hashing":     # expose_attributes_for_hashing(): flag, hypergraph metadata, the map's entries in key
+            #                       order (time, then the sorted node tuple), the nodes in label order - ORDERED rendering
+            ks = sorted(R, key=skey)
+            return "%s~%s~%s~%s" % ("1" if self.weighted else "0", f_meta_tok(self.hmeta.items()),
+                                    f_join("%s@%s=%s" % (fk(k), R[k][0], f_meta_tok(R[k][1].items())) for k in ks),
+                                    f_join("%s=%s" % (x, f_meta_tok(self.nodes[x].items())) for x in sorted(self.nodes)))
+        if name == "mapping":     # get_mapping().classes_: the sorted nodes
+            return f_join((str(x) for x in sorted(self.nodes)), ",")
+        if name == "indexof":     # get_mapping().transform([node])[0]
+            if a[0] not in self.nodes:
+                raise Rej()
+            return str(sorted(self.nodes).index(a[0]))
         if name == "imeta":
             k = self.key(a[0], a[1])
             if k is None or (k, a[2]) not in self.imd:
@@ -1191,6 +1219,41 @@ class Impl:
                 self.slots[slot] = TemporalHypergraph(edge_list=self.seq(edges, "list"),
                                                       time_list=self.seq([t_py(t) for t in ts], "list"), **kw)
             return
+        if name == "ctora":      # constructor without edge_list / time_list (weights / edge_metadata are ignored then)
+            slot, w, nmd, hmd, ws, mds = op[1:7]
+            kw = {}
+            if w or not omit:
+                kw["weighted"] = bool(w)
+            if ws is not None:
+                kw["weights"] = [w_py(x) for x in ws]
+            if nmd is not None:
+                kw["node_metadata"] = self.keep({self.lb(n): md_py(m) for n, m in nmd})
+            if mds is not None:
+                kw["edge_metadata"] = [md_py(m) for m in mds]
+            if hmd is not None:
+                kw["hypergraph_metadata"] = md_py(hmd)
+            self.slots[slot] = TemporalHypergraph(**kw)
+            return
+        if name == "ctorx":
+            slot, w, kind, hmd, nmd, form, es, ts, ws, mds = op[1:11]
+            kw = {"weighted": bool(w)}
+            if ws is not None:
+                kw["weights"] = [w_py(x) for x in ws]
+            if nmd is not None:
+                kw["node_metadata"] = {self.lb(n): md_py(m) for n, m in nmd}
+            if mds is not None:
+                kw["edge_metadata"] = [md_py(m) for m in mds]
+            if hmd is not None:
+                kw["hypergraph_metadata"] = md_py(hmd)
+            if form == "timesonly":
+                TemporalHypergraph(time_list=[t_py(t) for t in ts], **kw)
+            elif form == "emb":
+                odd = [[fresh(3), (self.lb(0),)], (fresh(3), (self.lb(0),), fresh(1)), ((self.lb(0), self.lb(1)),), None, self.lb(0)]
+                el = [odd[h32(oj, i) % len(odd)] if e == "!" else (t_py(t), self.L(e)) for i, (e, t) in enumerate(zip(es, ts))]
+                TemporalHypergraph(edge_list=el, **kw)
+            else:
+                TemporalHypergraph(edge_list=[self.L(e) for e in es], time_list=[t_py(t) for t in ts], **kw)
+            return          # (accepted: reported by the caller; the object is dropped)
         if name == "hoad":
             self.slots[op[1]] = hoad_call(op[2], op[3], op[4], op[5])
             return
@@ -1596,6 +1659,47 @@ class Impl:
             out = f_join(r[1] for r in rows)
             S(d, False)          # a fresh dict whose values are the stored dictionaries
             return out
+        if name == "hashing":
+            d = self.T(h.expose_attributes_for_hashing(), dict, "expose_attributes_for_hashing()")
+            if sorted(d) != ["edges", "hypergraph_metadata", "nodes", "type", "weighted"] or d["type"] != "TemporalHypergraph":
+                self.ty.append("expose_attributes_for_hashing() has the entries %r, type %r" % (sorted(d), d.get("type")))
+            self.T(d["weighted"], bool, "expose_attributes_for_hashing()['weighted']")
+            es = self.T(d["edges"], list, "expose_attributes_for_hashing()['edges']",
+                        lambda x: type(x) is dict and sorted(x) == ["metadata", "nodes", "weight"] and is_rec(x["nodes"]))
+            ns = self.T(d["nodes"], list, "expose_attributes_for_hashing()['nodes']",
+                        lambda x: type(x) is dict and sorted(x) == ["metadata", "node"])
+            return "%s~%s~%s~%s" % ("1" if d["weighted"] else "0", f_meta(d["hypergraph_metadata"]),
+                                    f_join("%s/%s@%s=%s" % (x["nodes"][0], f_edge([self.R(y) for y in x["nodes"][1]]),
+                                                            w_tok(x["weight"]), f_meta(x["metadata"])) for x in es),
+                                    f_join("%s=%s" % (self.R(x["node"]), f_meta(x["metadata"])) for x in ns))
+        if name == "mapping":
+            enc = h.get_mapping()
+            return f_join((str(self.R(x)) for x in enc.classes_), ",")
+        if name == "indexof":
+            return str(int(h.get_mapping().transform([self.lb(a[0])])[0]))
+        if name in ("edgetable", "adjtable", "tables"):
+            # the raw tables (ids visible).  These ARE the object's own dicts: read, never written to by the harness
+            rk = lambda x: (isinstance(self.R(x), str), self.R(x))
+            f_el = lambda el: f_join("%s#%s" % (self.frec(k), i) for k, i in sorted(el.items(), key=lambda p: p[1]))
+            f_adj = lambda ad: f_join("%s=%s" % (self.R(x), f_join((str(i) for i in ad[x]), ",", "_")) for x in sorted(ad, key=rk))
+            if name == "edgetable":
+                return f_el(self.T(h.get_edge_list(), dict, "get_edge_list()"))
+            if name == "adjtable":
+                return f_adj(self.T(h.get_adj_dict(), dict, "get_adj_dict()"))
+            d = self.T(h.expose_data_structures(), dict, "expose_data_structures()")
+            want = ["_adj", "_edge_list", "_weighted", "_weights", "edge_metadata", "hypergraph_metadata", "next_edge_id",
+                    "node_metadata", "reverse_edge_list", "type"]
+            if sorted(d) != want or d["type"] != "TemporalHypergraph":
+                self.ty.append("expose_data_structures() has the entries %r, type %r" % (sorted(d), d.get("type")))
+            self.T(d["_weighted"], bool, "expose_data_structures()['_weighted']")
+            self.T(d["next_edge_id"], int, "expose_data_structures()['next_edge_id']")
+            return "~".join(["1" if d["_weighted"] else "0", f_meta(d["hypergraph_metadata"]),
+                             f_join("%s@%s" % (i, w_tok(d["_weights"][i])) for i in sorted(d["_weights"])),
+                             f_adj(d["_adj"]), f_el(d["_edge_list"]),
+                             f_join("%s=%s" % (self.R(x), f_meta(d["node_metadata"][x])) for x in sorted(d["node_metadata"], key=rk)),
+                             f_join("%s=%s" % (i, f_meta(d["edge_metadata"][i])) for i in sorted(d["edge_metadata"])),
+                             f_join("%s#%s" % (i, self.frec(d["reverse_edge_list"][i])) for i in sorted(d["reverse_edge_list"])),
+                             str(d["next_edge_id"])])
         if name == "isolated":
             r = self.T(self.call(h, "isolated_nodes", **self.flt(*a)), list, "isolated_nodes()")
             out = f_nodes(self.R(n) for n in r)
@@ -1661,14 +1765,16 @@ def op_lines(op):
     if name == "new":
         return ["new %d %d" % (op[1], op[2])]
     if name == "ctor":
+        # extension round: the constructor call is ONE line of the model (`C03.construct`, Model/C03Ext.lean); before, the
+        # harness translated it into `new` + `sethmeta` + `addnode`* + `addedges` itself
         slot, w, nmd, raws, ts, ws, mds, embed = op[1:9]
-        ls = ["new %d %d" % (slot, w)]
-        if len(op) > 9 and op[9] is not None:
-            ls.append("sethmeta %d %s" % (slot, wl_meta(ctor_hmeta(w, op[9]))))
-        for n, m in (nmd or []):
-            ls.append("addnode %d %d %s" % (slot, n, wl_meta(m)))
-        ls.append(op_lines(["addedges", slot, raws, ts, ws, mds])[0])
-        return ls
+        return [ctor_line(slot, w, op[9] if len(op) > 9 else None, nmd, "emb" if embed else "sep", [f_edge(r) for r in raws], ts, ws, mds)]
+    if name == "ctora":
+        slot, w, nmd, hmd, ws, mds = op[1:7]
+        return [ctor_line(slot, w, hmd, nmd, "absent", [], [], ws, mds)]
+    if name == "ctorx":
+        slot, w, kind, hmd, nmd, form, es, ts, ws, mds = op[1:11]
+        return [ctor_line(slot, w, hmd, nmd, form, ["!" if e == "!" else f_edge(e) for e in es], ts, ws, mds)]
     if name == "hoad":
         links = hoad_links(op[2], op[3], op[4], op[5])
         return ["new %d 0" % op[1], op_lines(["addedges", op[1], [list(e) for _, e in links], [t for t, _ in links], None, None])[0]]
@@ -1755,6 +1861,14 @@ def derive_lines(op, route, sp, impl, src):
     return ls
 
 
+def ctor_line(slot, w, hmd, nmd, form, etoks, ts, ws, mds):
+    """`ctor i w hm nodemeta form es ts ws mds` (Driver/C03.lean, `parseCtor`)"""
+    return "ctor %d %d %s %s %s %s %s %s %s" % (
+        slot, w, wl_meta(hmd), f_join(("%d=%s" % (n, "_" if m is None else wl_meta(m)) for n, m in (nmd or [])), ";"), form,
+        f_join(etoks, ";"), wl_times(ts), "n" if ws is None else f_join((str(x) for x in ws), ","),
+        "n" if mds is None else f_join((wl_meta(m) for m in mds), ";"))
+
+
 def ctor_hmeta(w, hmd):
     """constructor: the caller's hypergraph metadata, then 'weighted' and 'type' written over it"""
     d = {k: v for k, v in hmd}
@@ -1785,6 +1899,8 @@ def q_line(slot, q):
         return "%s %s %s %d" % (p, oi(a[0]), oi(a[1]), a[2])
     if name in ("checkedge", "weight", "emeta"):
         return "%s %s %s" % (p, f_edge(a[0]), t_wire(a[1]))
+    if name in XQ:            # extension round: the getters of Model/C03Ext.lean (`x i <name>`)
+        return "x %d %s%s" % (slot, name, " %d" % a[0] if name == "indexof" else "")
     if name == "imeta":
         return "%s %s %s %d" % (p, f_edge(a[0]), t_wire(a[1]), a[2])
     if name == "allimeta":
@@ -1814,8 +1930,9 @@ SIGS = {"get_edges": [("time_window", None)] + _OS + [("up_to", False), ("metada
 
 KINDED = ("edges", "weights", "incident", "snap", "agg", "mintime", "maxtime", "numedges", "degseq", "degdist", "timesfor")
 
+XQ = ("hashing", "mapping", "indexof", "edgetable", "adjtable", "tables")
 DIGEST_QS = [("nodesmeta",), ("edges", None, None, None, 0, 1), ("weights", None, None, 0, 1), ("allemeta",),
-             ("iter",), ("hmeta",), ("weighted",), ("allimeta",)]
+             ("iter",), ("hmeta",), ("weighted",), ("allimeta",), ("hashing",)]
 
 
 def digest_queries(n):
@@ -2505,7 +2622,7 @@ def make_labels(rng, n):
 # ------------------------------------------------------------------------------------------------------------
 # one history
 
-ID_QUERIES = ("allemeta", "iter")
+ID_QUERIES = ("allemeta", "iter", "edgetable", "adjtable", "tables")
 STATE = {"id_only": 0, "stats": {}}
 
 
@@ -2540,7 +2657,7 @@ class Runner:
         for ln, a, (ex, cs) in zip(self.lines, ans, self.expect):
             if ex is None or a == ex or self.failed:
                 continue
-            if ln.split()[2:3] and ln.split()[0] == "q" and ln.split()[2] in ID_QUERIES:
+            if ln.split()[2:3] and ln.split()[0] in ("q", "x") and ln.split()[2] in ID_QUERIES:
                 # the two id listings are tied to the model only (the property does not speak of ids): report the
                 # difference (at most twice per run), stop comparing ids in this history and go on looking for an
                 # input on which a property-level observable is wrong
@@ -2594,8 +2711,28 @@ class Runner:
         self.kc += 1
         return got
 
+    def drop(self, slot):
+        """a scratch object is let go (the model keeps its slot, nobody asks it again)"""
+        self.flush()
+        self.impl.slots.pop(slot, None)
+        self.specs.pop(slot, None)
+        self.last.pop(slot, None)
+
+    def ext_queries(self, slot):
+        qs = [("edgetable",), ("adjtable",)]
+        if self.impl.np_ok:
+            # (an absent STRING label is not asked for: sklearn casts the argument of transform() to the width of the
+            # fitted labels first, "Ba" becomes "B")
+            strs = any(type(v) is str for v in self.lab)
+            qs += [("mapping",)] + [("indexof", x) for x in range(self.n + 1) if not strs or x in self.specs[slot].nodes]
+            self.ctx.count("label_mapping_asked")
+        return qs
+
     def digest(self, slot, use_spec=True):
-        return [self.ask(slot, q, use_spec) for q in digest_queries(self.n)]
+        d = [self.ask(slot, q, use_spec) for q in digest_queries(self.n)]
+        if not self.failed:
+            self.ask(slot, ("tables",), use_spec)      # every raw table after every call (model only: ids)
+        return d
 
     def fview(self, h, P):
         """every public getter of the object (None when it does not come back in time - reported)"""
@@ -2647,7 +2784,21 @@ class Runner:
         """apply one op everywhere; returns the implementation's outcome"""
         name = op[0]
         self.ops.append(op)
-        if name in ("new", "ctor", "hoad"):
+        if name == "ctorx":
+            # a constructor call that the unchanged code refuses (there is no object afterwards): the model's `construct`
+            # must refuse it too; a time that is not a non-negative int is the property's own demand
+            res, exc = self.impl.apply(op)
+            self.ctx.count("ctor_refused_" + op[3])
+            if res == "ok" and not self.failed:
+                self.failed = True
+                what = "constructor call %s (%s) was accepted" % (op_lines(op)[0], op[3])
+                if op[3] == "bad_time":
+                    self.ctx.violation(self.case(), what + ": a time that is not a non-negative integer must be rejected")
+                else:
+                    self.ctx.disagree(self.case(), what + ", the model's constructor refuses it")
+            self.model(op_lines(op)[0], "rej")
+            return res
+        if name in ("new", "ctor", "hoad", "ctora"):
             slot = op[1]
             res, exc = self.impl.apply(op)
             sp = Spec(bool(op[2]) if name != "hoad" else False)
@@ -2656,6 +2807,11 @@ class Runner:
                 links = hoad_links(op[2], op[3], op[4], op[5])
                 sp.apply(["addedges", slot, [list(e) for _, e in links], [t for t, _ in links], None, None])
                 self.ctx.count("hoad_records", len(sp.recs))
+            if name == "ctora":
+                if op[4] is not None:
+                    sp.hmeta = {k: v for k, v in ctor_hmeta(op[2], op[4])}
+                for x, m in (op[3] or []):
+                    sp.add_node(x, m)
             if name == "ctor":
                 w, nmd, raws, ts, ws, mds, embed = op[2:9]
                 if len(op) > 9 and op[9] is not None:
@@ -2785,6 +2941,13 @@ class Runner:
             if self.failed:
                 break
         if not self.failed:
+            # extension round: the label mapping (where numpy represents the labels exactly) and the raw table getters
+            # (hashing view and expose_data_structures() are part of the digest)
+            for q in self.ext_queries(slot):
+                self.ask(slot, q)
+                if self.failed:
+                    break
+        if not self.failed:
             # every returned list / set / dict and every derived Hypergraph has been overwritten by now (Impl.S,
             # Impl.mut_h): the same questions must still get the same answers (no view handed out, nothing cached)
             # (each one twice in a row: a one-entry cache only shows on an immediate repetition)
@@ -2811,6 +2974,71 @@ class Runner:
 
 
 EMPTIERS = ("clear", "rmedge", "rmedges", "rmnode", "rmnodes", "derive", "copy")
+
+
+def refused_ctor_ops(lab, n, S, weighted):
+    """0-2 constructor calls per history that the unchanged constructor refuses (own PRNG, a function of the history's
+    parameters): `time_list` without `edge_list`; an element of `edge_list` that is not a `(time, edge)` pair while
+    `time_list` is missing; lists of different lengths; a time that is not a non-negative int (embedded and separate
+    form); wrong number of weights; weights with a repeated hyperedge; too few `edge_metadata` entries"""
+    import random
+    r = random.Random(h32("ctorx", lab, n, S, weighted))
+    ops = []
+    for _ in range(r.choice([0, 0, 1, 1, 2])):
+        k = r.randint(2, 3)
+        es = [sorted(r.sample(range(n), r.randint(1, min(3, n)))) for _ in range(k)]
+        es = [list(e) for e in {tuple(e): 1 for e in es}]
+        for e in es:
+            r.shuffle(e)
+        ts = [S * r.randint(0, 6) for _ in es]
+        ws = [r.choice([4, 2, 6]) for _ in es] if r.random() < 0.5 else None
+        mds = [gen_md(r, False, True) for _ in es] if r.random() < 0.3 else None
+        nmd = [[x, gen_md(r, False, True)] for x in r.sample(range(n), 1)] if r.random() < 0.3 else None
+        hmd = [[100, 0]] if r.random() < 0.2 else None
+        form = r.choice(["emb", "sep"])
+        kind = r.choice(["timesonly", "emb_other", "sep_len", "bad_time", "bad_time", "ws_len", "ws_dup", "mds_len"])
+        w = int(weighted or ws is not None)
+        if kind == "timesonly":
+            form, es = "timesonly", []
+        elif kind == "emb_other":
+            form = "emb"
+            es[r.randrange(len(es))] = "!"
+        elif kind == "sep_len":
+            form = "sep"
+            ts = ts + [S] if r.random() < 0.5 else ts[:-1]
+        elif kind == "bad_time":
+            ts[r.randrange(len(ts))] = r.choice(["f", "s", -1, -S])
+        elif kind == "ws_len":
+            ws = [4] * (len(es) + r.choice([-1, 1]))
+            w = 1
+        elif kind == "ws_dup":
+            es = es + [list(es[0])]
+            ts = ts + [ts[0] + S]
+            ws = [4] * len(es)
+            w = 1
+            mds = None
+        elif kind == "mds_len":
+            mds = [[] for _ in es[:-1]]
+        ops.append(["ctorx", 7, w, kind, hmd, nmd, form, es, ts, ws, mds])
+    if r.random() < 0.5:
+        # an ACCEPTED constructor call into a scratch slot: without edge_list (`absent` form: flag, hypergraph metadata
+        # - also with the reserved key "weighted" -, node metadata; weights / edge_metadata are ignored), or with one
+        hmd = [[k, r.randrange(len(VALPOOL))] for k in r.sample([0, 1, 100], r.randint(0, 2))] if r.random() < 0.7 else None
+        nmd = [[x, gen_md(r, False, True)] for x in r.sample(range(n), r.randint(1, min(3, n)))] if r.random() < 0.7 else None
+        if r.random() < 0.5:
+            ops.append(["ctora", 7, int(r.random() < 0.5), nmd, hmd, [4, 8] if r.random() < 0.3 else None,
+                        [[]] if r.random() < 0.3 else None])
+        else:
+            k = r.randint(0, 4)
+            es = [sorted(r.sample(range(n), r.randint(1, min(3, n)))) for _ in range(k)]
+            es = [list(e) for e in {tuple(e): 1 for e in es}]
+            for e in es:
+                r.shuffle(e)
+            ts = [S * r.randint(0, 6) for _ in es]
+            ws = [r.choice([4, 2, 6, 0]) for _ in es] if r.random() < 0.5 else None
+            mds = [gen_md(r, False, True) for _ in es] if r.random() < 0.4 else None
+            ops.append(["ctor", 7, int(weighted), nmd, es, ts, ws, mds, int(r.random() < 0.5), hmd])
+    return ops
 
 
 def run_history(ctx, drv, rng, full=False, nops=None):
@@ -2849,6 +3077,15 @@ def run_history(ctx, drv, rng, full=False, nops=None):
     if not R.failed and 0 in R.specs:
         ctx.count("option_bursts_at_birth")
         R.asks(0, norec_queries(rng, n, R.specs[0], S))      # the object as the constructor leaves it (mostly no records)
+    if not R.failed and not hoad:
+        for op in refused_ctor_ops(lab, n, S, weighted):
+            R.do(op)
+            if R.failed:
+                break
+            if op[0] != "ctorx" and 7 in R.specs:
+                ctx.count("ctor_accepted_extra_" + ("absent" if op[0] == "ctora" else "edges"))
+                R.asks(7, R.ext_queries(7) + [("nodes",), ("numedges", None, None, 0), ("agg", S)])
+                R.drop(7)
     # now and then the object passes through a file / the serialisation helpers / pickle early on, so that most of the
     # history runs on an object that a loader produced
     reload_at = rng.randrange(min(nops, 6)) if rng.random() < 0.12 else -1
